@@ -178,7 +178,7 @@ func runC05(c *kit.Ctx) {
 		c.AddValuations(1)
 		n := 0
 		for _, s := range m.sql.Sites {
-			if s.F.Root() == ew.F && s.HasVerb("INSERT", "edges") {
+			if ew.owns(s) && s.HasVerb("INSERT", "edges") {
 				n++
 			}
 		}
@@ -408,6 +408,40 @@ func contains(xs []string, x string) bool {
 func checkR3(c *kit.Ctx, m *storeModel, ew *pointWriter, r3 *kit.Rule) {
 	walks := walkFuncs(c, m)
 	f := ew.F
+	ids := ew.IDs
+	if ew.Body != ew.F {
+		// the edge is inserted in the body function the writer hands its transaction to:
+		// the rule is judged there, with the body's own id parameters
+		inBody, walkInBody, walkInF := false, false, false
+		for _, site := range m.sql.Sites {
+			if site.F.Root() == ew.Body && site.HasVerb("INSERT", "edges") {
+				inBody = true
+			}
+		}
+		for _, call := range ew.Body.AllCalls(true) {
+			if cf := ew.Body.CalleeFunc(call); cf != nil && walks[cf] {
+				walkInBody = true
+			}
+		}
+		for _, call := range ew.F.AllCalls(true) {
+			if cf := ew.F.CalleeFunc(call); cf != nil && walks[cf] {
+				walkInF = true
+			}
+		}
+		if inBody {
+			if !walkInBody && walkInF {
+				r3.Ob(ew.F, nil, "INSERT INTO edges", "preceded by an ancestor walk").Undecided("the ancestor walk is called in %s, the edge is inserted in %s: the order across the two is not followed", ew.F.Name, ew.Body.Name)
+				return
+			}
+			f = ew.Body
+			ids = nil
+			for _, p := range f.Params() {
+				if b, ok := p.Type().Underlying().(*types.Basic); ok && b.Kind() == types.String {
+					ids = append(ids, p)
+				}
+			}
+		}
+	}
 	info := f.Info()
 	// variables that receive the bool result of a walk call with both ids
 	cycVars := map[types.Object]*ast.CallExpr{}
@@ -426,9 +460,9 @@ func checkR3(c *kit.Ctx, m *storeModel, ew *pointWriter, r3 *kit.Rule) {
 		}
 		// both id parameters must be passed
 		seen := 0
-		for _, idp := range ew.IDs {
+		for _, idp := range ids {
 			for _, a := range call.Args {
-				if kit.ObjOf(info, a) == idp {
+				if kit.ObjOf(info, a) == types.Object(idp) {
 					seen++
 					break
 				}
@@ -1250,6 +1284,21 @@ func checkWalkRoles(c *kit.Ctx, m *storeModel, ew *pointWriter, wf *kit.Func, si
 	}
 	// roles at the call site: which writer parameter is node (down) and parent (up)
 	var node, parent *types.Var
+	// judged in the function that contains the walk call (the writer, or its body function)
+	pids := ew.IDs
+	if ew.Body != ew.F {
+		for _, call := range ew.Body.AllCalls(true) {
+			if call == site {
+				f = ew.Body
+				pids = nil
+				for _, p := range f.Params() {
+					if b, ok := p.Type().Underlying().(*types.Basic); ok && b.Kind() == types.String {
+						pids = append(pids, p)
+					}
+				}
+			}
+		}
+	}
 	for _, sx := range m.sql.Sites {
 		if sx.F.Root() != f || !sx.HasVerb("INSERT", "edges") || len(sx.Stmts) == 0 {
 			continue
@@ -1258,11 +1307,11 @@ func checkWalkRoles(c *kit.Ctx, m *storeModel, ew *pointWriter, wf *kit.Func, si
 			if i < len(sx.Args) {
 				switch col {
 				case "up":
-					if p := traceToParam(f, sx.Args[i], ew.IDs); p != nil {
+					if p := traceToParam(f, sx.Args[i], pids); p != nil {
 						parent = p
 					}
 				case "down":
-					if p := traceToParam(f, sx.Args[i], ew.IDs); p != nil {
+					if p := traceToParam(f, sx.Args[i], pids); p != nil {
 						node = p
 					}
 				}
